@@ -16,6 +16,7 @@ open PV PV.Model.Ping
           i<k>:<id|x>   Session.Parse called with an echo reply carrying id (x: a frame that is no echo reply)
           j<k>          that Parse call returned
           t:<ids|->     atomic dump of the icmpTable keys
+  `ping.eff <4|6> <ns>`                   → effective timeout in ns (`Model.Ping.effTimeout`) of a call with that argument
         the machine of Model/Ping.lean is run as an acceptor: hidden steps (reg, sendErr, cleanup, wake,
         timeout, unreg, the echoNotify of an open Parse call) are closed over between observed events.
 -/
@@ -138,6 +139,9 @@ def handle (cmd : String) (args : List String) : Option String :=
     let toks := rest.filter (fun t => ¬ t.startsWith "scn=")
     let obs ← toks.mapM parseObs
     some (accept i0 (threadCount obs) obs)
+  | "ping.eff", [_fam, ns] => do
+    let t ← ns.toInt?
+    some (toString (effTimeout t))
   | _, _ => none
 
 end PV.Drv.Ping
